@@ -11,12 +11,34 @@ STATE = 'buffer state arbitrary within the invariant (fill position <= write lim
 VS = 'vsnprintf = contract model returning an arbitrary would-be length 0..INT_MAX'
 KF = ['-DKF_C14_1']
 # loops whose bound is a symbolic length: the symbolic executor cannot stop them by itself, give them their true small bound
-SYMB = ['_ZNK12SimpleString16getPrintableSizeEv.0:4', '_ZNK12SimpleString9printableEv.0:4']
+SYMB = ['_ZNK12SimpleString16getPrintableSizeEv.0:4', '_ZNK12SimpleString9printableEv.0:4', 'out_is.0:226']
 FS = ['--max-field-sensitivity-array-size', '168']
 NULLS = {'00': '', '01': ', actual NULL', '10': ', expected NULL', '11': ', both NULL'}
 OPS2 = 'operand strings 0..2 bytes over the full byte range, NULL-ness symbolic where the class takes pointers'
 SHOW = ['EqualsFailure(const char*)', 'EqualsFailure(SimpleString)', 'ContainsFailure', 'CheckFailure', 'ComparisonFailure', 'FailFailure', 'FeatureUnsupportedFailure']
 NUM = ['LongsEqualFailure', 'UnsignedLongsEqualFailure', 'LongLongsEqualFailure', 'UnsignedLongLongsEqualFailure', 'SignedBytesEqualFailure']
+CTOR = {0: '_ZN17CheckEqualFailureC2EP10UtestShellPKcmRK12SimpleStringS6_S6_', 1: '_ZN18StringEqualFailureC2EP10UtestShellPKcmS3_S3_RK12SimpleString',
+        2: '_ZN24StringEqualNoCaseFailureC2EP10UtestShellPKcmS3_S3_RK12SimpleString'}
+def symb(L, extra=()):
+    return ['_ZNK12SimpleString16getPrintableSizeEv.0:%d' % (L + 2), '_ZNK12SimpleString9printableEv.0:%d' % (L + 2), 'out_is.0:226'] + list(extra)
+def msg_obligations(L, tier):
+    """message classes with operands of 0..L bytes; the longest string is "expected <....>\\n\\tbut was  <....>" with both operands escaped"""
+    u = 28 + 8 * L
+    kw = dict(unwind=u, tier=tier, timeout=(600 if L == 1 else 3600), defines=([] if L == 1 else ['-DMAXL=%d' % L, '-DBINMAX=%d' % (L + 1)]))
+    if L > 1:
+        kw['solver'] = 'kissat'
+    ops = 'operand strings 0..%d bytes over the full byte range' % L
+    B = L + 1 if L > 1 else 2
+    return (
+        [ob('harness_diff_%d_%s' % (k, nn), unwindset=symb(L, [CTOR[k] + '.0:%d' % (L + 2), CTOR[k] + '.1:%d' % (4 * L + 2)]),
+            bounds=ops + '; ' + ['CheckEqualFailure', 'StringEqualFailure', 'StringEqualNoCaseFailure'][k] + NULLS[nn] + (' [KF_C14_2: shown forms differ]' if nn == '00' else ''), **kw)
+         for k, nn in [(0, '00'), (1, '00'), (1, '01'), (1, '10'), (2, '00'), (2, '01'), (2, '10')]] +
+        [ob('harness_binary_%s' % nn, unwindset=symb(L, ['_Z16StringFromBinaryPKhm.0:%d' % (B + 2), '_ZN18BinaryEqualFailureC2EP10UtestShellPKcmPKhS5_mRK12SimpleString.0:%d' % (B + 1)]),
+            bounds='blocks of 0..%d arbitrary bytes, differing within the size; BinaryEqualFailure' % B + NULLS[nn], **dict(kw, tier=(tier if nn == '00' else 'thorough'))) for nn in ('00', '01', '10')] +
+        [ob('harness_show_%d_%s' % (k, nn), unwindset=symb(L), bounds=ops + ', user text 0..1 byte; ' + SHOW[k - 3] + NULLS[nn], **dict(kw, unwind=54 + 2 * L, tier=(tier if nn in ('00', '11') else 'thorough')))
+         for k, nn in [(3, '00'), (3, '01'), (3, '10'), (3, '11'), (4, '00'), (5, '00'), (6, '00'), (7, '00'), (8, '00')]] +
+        ([ob('harness_bits', unwindset=symb(L, ['_Z20StringFromMaskedBitsmmm.0:10']), bounds='operands and mask any 64-bit value, byteCount 1; BitsEqualFailure', **dict(kw, unwind=44, tier='thorough', timeout=1800)),
+          ob('harness_where', unwindset=symb(L), bounds='file name 0..1 bytes, any line', **kw)] if L == 1 else []))
 SPEC = {
     'property': 'C14',
     'functions_of_interest': ['SimpleStringBuffer', 'MemoryLeakOutputStringBuffer', 'Failure'],
@@ -39,22 +61,14 @@ SPEC = {
         # short messages; the marker renderer is a recording stub in the solver world (see h14m.c)
         'name': 'msg', 'wrapper': 'w14m.cpp', 'harness': 'h14m.c', 'defines': ['-DKF_C14_2', '-DMARKER_STUBBED'],
         'config': {'stubs': ['_ZN11TestFailure27createDifferenceAtPosStringERK12SimpleStringmm']},
-        'obligations':
-            [ob('harness_diff_%d_%s' % (k, nn), unwind=64, unwindset=SYMB, timeout=900,
-                bounds=OPS2 + '; ' + ['CheckEqualFailure', 'StringEqualFailure', 'StringEqualNoCaseFailure'][k] + NULLS[nn] + (' [KF_C14_2: shown forms differ]' if nn == '00' else ''))
-             for k, nn in [(0, '00'), (1, '00'), (1, '01'), (1, '10'), (2, '00'), (2, '01'), (2, '10')]] +
-            [ob('harness_binary_%s' % nn, unwind=64, unwindset=SYMB, timeout=900, bounds='blocks of 0..2 arbitrary bytes, differing within the size; BinaryEqualFailure' + NULLS[nn]) for nn in ('00', '01', '10')] +
-            [ob('harness_show_%d_%s' % (k, nn), unwind=64, unwindset=SYMB, timeout=900, bounds=OPS2 + ', user text 0..1 byte; ' + SHOW[k - 3] + NULLS[nn])
-             for k, nn in [(3, '00'), (3, '01'), (3, '10'), (3, '11'), (4, '00'), (5, '00'), (6, '00'), (7, '00'), (8, '00')]] +
-            [ob('harness_bits', unwind=64, unwindset=SYMB, timeout=900, bounds='operands and mask any 64-bit value, byteCount 1; BitsEqualFailure')] +
-            [ob('harness_where', unwind=32, bounds='file name 0..2 bytes, any line')],
+        'obligations': msg_obligations(1, 'quick') + msg_obligations(2, 'thorough'),
     }, {
         # long messages: 168-byte heap objects
-        'name': 'long', 'wrapper': 'w14m.cpp', 'harness': 'h14m.c', 'defines': ['-DKF_C14_2', '-DENV_MALLOC_CAP=168'], 'config': {},
+        'name': 'long', 'wrapper': 'w14m.cpp', 'harness': 'h14m.c', 'defines': ['-DKF_C14_2', '-DENV_MALLOC_CAP=168'], 'config': {}, 'LONG_MARK': 1,
         'obligations':
-            [ob('harness_marker', unwind=170, unwindset=SYMB, timeout=1800, cbmc_flags=FS, bounds='shown text any 0..4 bytes, offset 0..length, reported position any 64-bit value; createDifferenceAtPosString')] +
-            [ob('harness_show_9_00', unwind=170, unwindset=SYMB, timeout=1800, cbmc_flags=FS, bounds=OPS2 + ', user text 0..1 byte; FeatureUnsupportedFailure')] +
-            [ob('harness_number_%d' % k, unwind=170, unwindset=SYMB, timeout=1800, cbmc_flags=FS, bounds='both operands any 64-bit value; ' + NUM[k]) for k in range(5)] +
-            [ob('harness_doubles', unwind=170, unwindset=SYMB, timeout=1800, cbmc_flags=FS, bounds='operands and threshold any double incl. NaN and infinities; DoublesEqualFailure')],
+            [ob('harness_marker', unwind=170, unwindset=SYMB, timeout=1800, cbmc_flags=FS, tier='thorough', bounds='shown text any 0..4 bytes, offset 0..length, reported position any 64-bit value; createDifferenceAtPosString')] +
+            [ob('harness_show_9_00', unwind=170, unwindset=SYMB, timeout=1800, cbmc_flags=FS, tier='thorough', bounds=OPS2 + ', user text 0..1 byte; FeatureUnsupportedFailure')] +
+            [ob('harness_number_%d' % k, unwind=170, unwindset=SYMB, timeout=1800, cbmc_flags=FS, tier='thorough', bounds='both operands any 64-bit value; ' + NUM[k]) for k in range(5)] +
+            [ob('harness_doubles', unwind=170, unwindset=SYMB, timeout=1800, cbmc_flags=FS, tier='thorough', bounds='operands and threshold any double incl. NaN and infinities; DoublesEqualFailure')],
     }],
 }
